@@ -12,6 +12,12 @@ NOTE_COMMON = ("Trusted base: go/packages + go/types type-check of /repo's worki
 
 # id -> (technique, level text, level note, design ref)
 CLAIMS = {
+    "C20": (
+        "static lockset / ownership analysis: frozen lock table (field -> mutex), enumeration of every read and write of a guarded field in main/api/ircserver/outputstream/raftstore, forward must-lockset data-flow per function with entry locksets propagated over the call graph (intersection over call sites; registry handlers inherit the dispatcher's lockset), mode check (write needs W), construction/immutability exemptions, call-site obligations for methods that do not lock, escape check for copies carrying maps",
+        "Decides, at type level, that every pair of accesses to IRC server, output stream, store and api.HTTP state that two roles can perform concurrently shares a lock in a sufficient mode: all ~775 guarded field accesses are covered on every path (the race detector only samples schedules). "
+        "Not instance-sensitive (two LevelDBStore instances, the temporary server in Snapshot) — handled by the freshness / call-site rules and one reasoned exception group; lock order (a ConfigMu/sessionsMu inversion exists) is reported as an observation, not as a race.",
+        NOTE_COMMON,
+        "DESIGN.md section 3, C20"),
     "C01": (
         "non-interference argument over the call closure of FSM.applyRobustMessage (all registered handlers): effect classification of every range-over-map body (collect-then-sort with path-sensitive sort check, set building, per-iteration object, commutative flag, unique match by key), classification of every external callee (clock / randomness / environment / scheduler / zone-dependent time methods), who-writes of package variables and reply ids, absence of goroutines/channels/select and pointer formatting",
         "A sufficient static condition decided for all entry histories at once: no source of nondeterminism (map iteration order, wall clock, time zone, randomness, environment, goroutine timing, mutable package state, address formatting) is reachable from the state-machine step; "
